@@ -479,7 +479,9 @@ Definition wfw_b (p : name) : bool := wf_name p && (len p + 23 <=? MAX_FRAME).
    (`live`), `hs` = a verdict has been given before (so the header has been seen). As soon as
    acc ++ payload is exactly [header +] confirmation of the current (well-formed) name the call
    MUST answer Succeeded, on [header +] na it MUST answer Rejected, on the header alone (or on an
-   empty message after it) it MUST answer NotReady - however the frames were spread over the calls. *)
+   empty message after it) it MUST answer NotReady - however the frames were spread over the calls.
+   A propose_next_fallback in the middle of an answer (something registered, no verdict yet) is
+   not a conversation with a legal listener: nothing is demanded from then on. *)
 Definition ok2_expect (live hs : bool) (cur : name) (acc' : bytes) : option N :=
   if live && wfw_b cur then
     let h := if hs then [] else wpart MHeader in
@@ -490,6 +492,7 @@ Definition ok2_expect (live hs : bool) (cur : name) (acc' : bytes) : option N :=
     else None
   else None.
 
+Definition is_nil (b : bytes) : bool := match b with [] => true | _ => false end.
 Fixpoint ok2_ops (ops : list wop) (cur : name) (fbs : list name) (live hs : bool) (acc : bytes)
                  (tr : list N) : bool :=
   match ops with
@@ -507,10 +510,10 @@ Fixpoint ok2_ops (ops : list wop) (cur : name) (fbs : list name) (live hs : bool
       end
   | WNext :: t =>
       match fbs, tr with
-      | [], 1 :: 0 :: tr' => ok2_ops t cur [] live hs [] tr'
+      | [], 1 :: 0 :: tr' => ok2_ops t cur [] (live && is_nil acc) hs [] tr'
       | f :: fbs', 1 :: 1 :: tr' =>
           match p_bytes tr' with
-          | Some (m, tr'') => opt_bytes_eqb (propose_msg f false) m && ok2_ops t f fbs' live hs [] tr''
+          | Some (m, tr'') => opt_bytes_eqb (propose_msg f false) m && ok2_ops t f fbs' (live && is_nil acc) hs [] tr''
           | None => false
           end
       | f :: fbs', 1 :: 2 :: tr' =>
@@ -588,7 +591,6 @@ Definition ok3 (side lazy : bool) (ns : list name) (input : bytes) (o : obs0) : 
      fires before it reads the confirmation), and the side that did succeed receives no byte at
      all (never negotiation bytes as application data), ending on a clean EOF;
    - without a common name both fail. *)
-Definition is_nil (b : bytes) : bool := match b with [] => true | _ => false end.
 
 Definition ok6 (td tl : N) (c : ncase) (o : obs0) : bool :=
   (o_status o =? 0) &&
